@@ -22,6 +22,7 @@ def run(ctx, R, tier):
     c06.sib(F, R)
     c06.prev(F, R)
     c06.set_unconditional(F, R, rule='B.C17.set')
+    c06.progress_reset(F, R, rule='B.C17.set')
     # 'in the same chunk in which the modulator produced it': a sound is never picked up before the modulator it is linked to
     c06.duration_interp(F, R, rule='B.C17.interp')
     from .c07 import write_unconditional
